@@ -23,6 +23,8 @@ fn spaces(tier: Tier) -> Vec<Space> {
             Space { alpha: "SHARE", depth: 2 },
             Space { alpha: "A0", depth: 2 },
             Space { alpha: "SHARE", depth: 3 },
+            Space { alpha: "SAME", depth: 2 },
+            Space { alpha: "SAME", depth: 3 },
             Space { alpha: "MICRO", depth: 3 },
             Space { alpha: "BIND", depth: 2 },
             Space { alpha: "CORE", depth: 3 },
@@ -39,6 +41,8 @@ fn spaces(tier: Tier) -> Vec<Space> {
             Space { alpha: "A1", depth: 2 },
             Space { alpha: "MICRO", depth: 3 },
             Space { alpha: "SHARE", depth: 3 },
+            Space { alpha: "SAME", depth: 2 },
+            Space { alpha: "SAME", depth: 3 },
             Space { alpha: "CORE", depth: 3 },
             Space { alpha: "A0", depth: 3 },
             Space { alpha: "MICRO", depth: 4 },
